@@ -4,7 +4,8 @@ from . import common as C, gen_int as G, oracles as O
 LEAN_MODULE = ["Urandom.Props.C05", "Urandom.Props.C05T", "Urandom.Props.C04R"]
 RULE = ("requests: shuffle / partial_shuffle(n) on slices of length 0..24 (and a few hundred), n in {0,1,len-1,len,len+1,usize::MAX,random}, "
         "scripted words realising chosen index values at both ends of their acceptance interval with interspersed rejected words; "
-        "non-trivial = slice length >= 2; distinct = distinct request line. extra: complete enumeration of the index-tuple space for n <= 6 on the implementation")
+        "non-trivial = slice length >= 2; distinct = distinct request line. extra: complete enumeration of the index-tuple space for n <= 6 on the implementation"
+        " Since rounds 8-10: exact first-draw counts through shuffle and second-draw counts of partial_shuffle(.., 2) incl. the words behind a rejected one (the outcome mapping is learnt from the middle words; no assumption on which element a draw moves); index(n) as op idx:n inside ChaCha histories at every kind of buffer position (model: the distribution model on the block model's own draws).")
 ASSUMPTIONS = ["elements are integers; the algorithms never inspect elements (generic over T)"]
 
 
@@ -101,7 +102,7 @@ def extra(binary, build, tier, rng):
     # the n intervals (no assumption on which element the first draw moves, or where to); exact uniformity = the n steps are equally long.
     from .preimage_oracle import Prober
     T = (1 << 63) + 1
-    for n in ((9, 11, 19, 23, 27, 9 + rng.below(300), 9 + rng.below(300)) if tier == "quick" else tuple(range(9, 70)) + (100, 255, 257, 1000, 65535)):
+    for n in ((9, 11, 19, 23, 27, 9 + rng.below(300), 9 + rng.below(300)) if tier == "quick" else tuple(range(9, 70)) + (100, 255, 257)):      # (the request line grows with n: every probe carries the n items and the n - 2 tail words)
         items = ",".join(map(str, range(n)))
         tail = ",".join([str(T)] * (n - 2))      # exactly the n - 2 further draws: a rejected first word makes the script run dry (no outcome)
         mk = (lambda w, items=items, tail=tail: "shuf items=%s words=%d,%s" % (items, w, tail))
